@@ -45,7 +45,7 @@ theorem setItem_fields (cfg : Cfg) (s : State) (k : Uri) (t : Tmpl) :
 /-! ## construction that regenerates -/
 
 theorem construct_regen {cfg : Cfg} {s : State} {k : Uri} {f : FileRef} {file : File} (hf : s.fs f = some file)
-    (hb : file.broken = false) (hr : needsRegen cfg s k file) :
+    (hb : file.broken = false) (hr : needsRegen cfg s k f file) :
     construct cfg s k f = (.ok ⟨s.nextId, k, some f, file.content, s.clock⟩, regenState cfg s k f file) := by
   have hc := construct_cases cfg s k f
   generalize construct cfg s k f = r at hc
@@ -53,12 +53,14 @@ theorem construct_regen {cfg : Cfg} {s : State} {k : Uri} {f : FileRef} {file : 
   | nofile hf' => rw [hf] at hf'; cases hf'
   | broken file' hf' hb' _ => rw [hf] at hf'; injection hf' with hf'; subst hf'; rw [hb] at hb'; cases hb'
   | regen file' hf' _ _ => rw [hf] at hf'; injection hf' with hf'; subst hf'; rfl
-  | reuse file' m hf' hmd hm hle =>
+  | reuse file' m hf' hmd hm hle hsrc =>
     rw [hf] at hf'; injection hf' with hf'; subst hf'
-    have := hr hmd m hm; omega
+    rcases hr hmd m hm with h1 | h1
+    · omega
+    · exact absurd hsrc h1
 
 theorem construct_broken {cfg : Cfg} {s : State} {k : Uri} {f : FileRef} {file : File} (hf : s.fs f = some file)
-    (hb : file.broken = true) (hr : needsRegen cfg s k file) :
+    (hb : file.broken = true) (hr : needsRegen cfg s k f file) :
     construct cfg s k f = (.error .compile, { s with nextId := s.nextId + 1 }) := by
   have hc := construct_cases cfg s k f
   generalize construct cfg s k f = r at hc
@@ -66,14 +68,16 @@ theorem construct_broken {cfg : Cfg} {s : State} {k : Uri} {f : FileRef} {file :
   | nofile hf' => rw [hf] at hf'; cases hf'
   | broken file' hf' hb' _ => rfl
   | regen file' hf' hb' _ => rw [hf] at hf'; injection hf' with hf'; subst hf'; rw [hb] at hb'; cases hb'
-  | reuse file' m hf' hmd hm hle =>
+  | reuse file' m hf' hmd hm hle hsrc =>
     rw [hf] at hf'; injection hf' with hf'; subst hf'
-    have := hr hmd m hm; omega
+    rcases hr hmd m hm with h1 | h1
+    · omega
+    · exact absurd hsrc h1
 
 /-- a compile error of `Template.__init__` means: the file is broken and no module file stood in the way -/
 theorem construct_compile_error {cfg : Cfg} {s s' : State} {k : Uri} {f : FileRef}
     (hc : construct cfg s k f = (.error .compile, s')) :
-    ∃ file, s.fs f = some file ∧ file.broken = true ∧ needsRegen cfg s k file ∧
+    ∃ file, s.fs f = some file ∧ file.broken = true ∧ needsRegen cfg s k f file ∧
       s' = { s with nextId := s.nextId + 1 } := by
   have hcc := construct_cases cfg s k f
   rw [hc] at hcc
@@ -113,7 +117,7 @@ theorem modsync_load {cfg : Cfg} {s : State} (h : ModSync cfg s) {k : Uri} (f : 
     · rw [h1, h2]; simp [regenState, hmd, setMod]
     · have := h hmd p h2 hfile
       simp only [regenState, hmd, if_true, setMod, h1, if_false]; exact this
-  | reuse file m hf hmd' hm hle =>
+  | reuse file m hf hmd' hm hle hsrc =>
     rw [load_ok hn hc]
     intro hmd p hp hfile
     obtain ⟨hfs, hmods, _, _, _⟩ := setItem_fields cfg (reuseState s k f m) k ⟨s.nextId, k, some f, m.content, m.time⟩
@@ -137,6 +141,7 @@ theorem modsync_check {cfg : Cfg} {s : State} (h : ModSync cfg s) (k : Uri) (t :
       · exact h
       · have hl := modsync_load (cfg := cfg) (s := { s with coll := erase s.coll k }) (modsync_sub h (erase_sublist _ _)) f
           (get?_erase_self _ _)
+        rw [load_of_none f (get?_erase_self _ _)] at hl
         split
         · rename_i s' heq; rw [heq] at hl; exact modsync_sub hl (erase_sublist _ _)
         · exact hl
@@ -188,6 +193,158 @@ theorem modsync_run {cfg : Cfg} (ops : List Op) {s : State} (h : ModSync cfg s)
 theorem modsync_final (cfg : Cfg) (h : List Op) (hop : ∀ op ∈ h, noPutTemplate op = true) :
     ModSync cfg (final cfg h) :=
   modsync_run h (by intro _ p hp; simp [init] at hp) hop
+
+/-! ## ModCur: a module file stamped later than its source's mtime holds the source's current content -/
+
+def ModCur (s : State) : Prop :=
+  ∀ k m file, s.mods k = some m → s.fs m.src = some file → file.mtime < m.time →
+    file.broken = false ∧ m.content = file.content
+
+theorem modcur_congr {s s' : State} (hm : s'.mods = s.mods) (hf : s'.fs = s.fs) (h : ModCur s) : ModCur s' := by
+  intro k m file h1 h2 h3
+  rw [hm] at h1; rw [hf] at h2
+  exact h k m file h1 h2 h3
+
+theorem modcur_construct {cfg : Cfg} {s : State} (h : ModCur s) (k : Uri) (f : FileRef) :
+    ModCur (construct cfg s k f).2 := by
+  have hc := construct_cases cfg s k f
+  generalize construct cfg s k f = r at hc
+  cases hc with
+  | nofile hf => exact modcur_congr rfl rfl h
+  | broken file hf hb hr => exact modcur_congr rfl rfl h
+  | reuse file m hf hmd hm hle hsrc => exact modcur_congr rfl rfl h
+  | regen file hf hb hr =>
+    intro k' m file' h1 h2 h3
+    simp only [regenState] at h1 h2
+    split at h1
+    · simp only [setMod] at h1
+      split at h1
+      · injection h1 with h1; subst h1
+        simp only at h2
+        rw [hf] at h2; injection h2 with h2; subst h2
+        exact ⟨hb, rfl⟩
+      · exact h k' m file' h1 h2 h3
+    · exact h k' m file' h1 h2 h3
+
+theorem modcur_loadFresh {cfg : Cfg} {s : State} (h : ModCur s) (k : Uri) (f : FileRef) :
+    ModCur (loadFresh cfg s k f).2 := by
+  have hc := modcur_construct (cfg := cfg) h k f
+  unfold loadFresh
+  split
+  · rename_i t s' heq; rw [heq] at hc
+    obtain ⟨h1, h2, _⟩ := setItem_fields cfg s' k t
+    exact modcur_congr h2 h1 hc
+  · rename_i e s' heq; rw [heq] at hc
+    exact modcur_congr rfl rfl hc
+
+theorem modcur_check {cfg : Cfg} {s : State} (h : ModCur s) (k : Uri) (t : Tmpl) : ModCur (check cfg s k t).2 := by
+  unfold check
+  cases hf : t.file with
+  | none => exact h
+  | some f =>
+    simp only
+    cases hfs : s.fs f with
+    | none => exact modcur_congr rfl rfl h
+    | some file =>
+      simp only
+      split
+      · exact h
+      · have hl := modcur_loadFresh (cfg := cfg) (s := { s with coll := erase s.coll k }) (modcur_congr rfl rfl h) k f
+        split
+        · rename_i s' heq; rw [heq] at hl; exact modcur_congr rfl rfl hl
+        · exact hl
+
+theorem modcur_getTemplate {cfg : Cfg} {s : State} (h : ModCur s) (k : Uri) : ModCur (getTemplate cfg s k).2 := by
+  have hst : ModCur (stampHit s k) := modcur_congr rfl rfl h
+  unfold getTemplate
+  split
+  · split
+    · exact modcur_check hst k _
+    · exact hst
+  · split
+    · unfold load
+      split
+      · split
+        · exact modcur_check hst k _
+        · exact hst
+      · exact modcur_loadFresh h k _
+    · exact h
+
+theorem modcur_setFs {cfg : Cfg} {s : State} (hi : Inv cfg s) (h : ModCur s) (r : FileRef) (v : Option File)
+    (hv : ∀ f, v = some f → f.mtime = s.clock) : ModCur { s with fs := setFs s.fs r v } := by
+  intro k m file h1 h2 h3
+  simp only [setFs] at h2
+  split at h2
+  · have := hv file h2
+    have := hi.mod_le k m h1
+    omega
+  · exact h k m file h1 h2 h3
+
+theorem modcur_step {cfg : Cfg} {s : State} (hi : Inv cfg s) (h : ModCur s) (op : Op) : ModCur (step cfg s op).2 := by
+  cases op with
+  | tick n => exact modcur_congr rfl rfl h
+  | writeFile d u c => exact modcur_setFs hi h _ _ (by intro f hf; injection hf with hf; subst hf; rfl)
+  | deleteFile d u => exact modcur_setFs hi h _ _ (by intro f hf; cases hf)
+  | breakFile d u => exact modcur_setFs hi h _ _ (by intro f hf; injection hf with hf; subst hf; rfl)
+  | getTemplate u => rw [step_get_state]; exact modcur_getTemplate h u
+  | hasTemplate u => rw [step_has_state]; exact modcur_getTemplate h u
+  | putString u c =>
+    simp only [step, putString]
+    obtain ⟨h1, h2, _⟩ := setItem_fields cfg
+      { s with nextId := s.nextId + 1, made := s.made ++ [⟨s.nextId, u, none, c, s.clock⟩] } u ⟨s.nextId, u, none, c, s.clock⟩
+    exact modcur_congr h2 h1 (modcur_congr rfl rfl h)
+  | putTemplate u i =>
+    simp only [step]
+    split
+    · rename_i t _
+      obtain ⟨h1, h2, _⟩ := setItem_fields cfg s u t
+      exact modcur_congr h2 h1 h
+    · exact h
+
+theorem modcur_run {cfg : Cfg} (ops : List Op) {s : State} (hi : Inv cfg s) (h : ModCur s) :
+    ModCur (run cfg s ops).2 := by
+  induction ops generalizing s with
+  | nil => exact h
+  | cons op r ih =>
+    simp only [run]
+    exact ih (inv_step hi op) (modcur_step hi h op)
+
+theorem modcur_final (cfg : Cfg) (h : List Op) : ModCur (final cfg h) :=
+  modcur_run h (inv_init cfg) (by intro k m file h1; simp [init] at h1)
+
+/-- the possible results of constructing from an existing, compiling file: the current content, or – with a
+module directory – the content of a module file of the same source stamped in the very second of the source's
+mtime (the one-second allowance) -/
+theorem construct_ok_current {cfg : Cfg} {s s' : State} {k : Uri} {f : FileRef} {file : File} {t : Tmpl}
+    (hm : ModCur s) (hf : s.fs f = some file) (hc : construct cfg s k f = (.ok t, s')) :
+    t.file = some f ∧ t.id = s.nextId ∧
+      (t.content = file.content ∨ (cfg.moddir = true ∧ t.stamp = file.mtime)) := by
+  have hcc := construct_cases cfg s k f
+  rw [hc] at hcc
+  cases hcc with
+  | regen file' hf' hb hr =>
+    rw [hf] at hf'; injection hf' with hf'; subst hf'
+    exact ⟨rfl, rfl, Or.inl rfl⟩
+  | reuse file' m hf' hmd hmm hle hsrc =>
+    rw [hf] at hf'; injection hf' with hf'; subst hf'
+    refine ⟨rfl, rfl, ?_⟩
+    by_cases heq : file.mtime = m.time
+    · exact Or.inr ⟨hmd, heq.symm⟩
+    · have hlt : file.mtime < m.time := by omega
+      exact Or.inl (hm k m file hmm (by rw [hsrc]; exact hf) hlt).2
+
+/-- …and it cannot fail when the file compiles -/
+theorem construct_ok_of_compiles {cfg : Cfg} {s : State} {k : Uri} {f : FileRef} {file : File}
+    (hf : s.fs f = some file) (hb : file.broken = false) :
+    ∃ t s', construct cfg s k f = (.ok t, s') := by
+  have hcc := construct_cases cfg s k f
+  rcases hc : construct cfg s k f with ⟨r, s'⟩
+  rw [hc] at hcc
+  cases hcc with
+  | nofile hf' => rw [hf] at hf'; cases hf'
+  | broken file' hf' hb' _ => rw [hf] at hf'; injection hf' with hf'; subst hf'; rw [hb] at hb'; cases hb'
+  | regen file' hf' _ _ => exact ⟨_, _, rfl⟩
+  | reuse file' m hf' hmd hmm hle hsrc => exact ⟨_, _, rfl⟩
 
 /-! ## the specification of "what a lookup serves": a cold lookup on the current disk -/
 
@@ -344,7 +501,7 @@ theorem cur_load {home : Uri → Dir} {cfg : Cfg} {s : State} (h : Cur home cfg 
           exact ⟨hb, rfl⟩
         · exact h.modf k' m hm file' hf' hle
       · exact h.modf k' m hm file' hf' hle
-  | reuse file m hf hmd hm hle =>
+  | reuse file m hf hmd hm hle hsrc =>
     rw [load_ok hn hc]
     obtain ⟨hb, hcont⟩ := h.modf k m hm file hf hle
     refine ⟨by simp [viewGet, hf, hb, hcont], ?_⟩
